@@ -144,7 +144,21 @@ class Sym:
 def _grid(a):
     kw = dict(a.get('fast_kw', {}))
     return dyn.grid(M=a['M'], L=a['L'], I=a['I'], J=a['J'], spacing=a.get('spacing', 'gauss'), impl=a.get('impl', 'real'),
-                    offset=a.get('offset', 0.0), **kw)
+                    offset=a.get('offset', 0.0), radius=a.get('radius'), **kw)
+
+
+def indep_sin_lat(spacing, J):
+    """sin(latitude) of the nodes from the grid DEFINITION (not from the implementation's tables)"""
+    if spacing == 'gauss':
+        return np.polynomial.legendre.leggauss(J)[0]
+    if spacing == 'equiangular':
+        return np.sin(-np.pi / 2 + (np.arange(J) + 0.5) * np.pi / J)
+    return np.sin(-np.pi / 2 + np.arange(J) * np.pi / (J - 1))
+
+
+def _sin_lat_padded(g, a):
+    out = np.zeros(g.nodal_shape[1]); out[: g.latitude_nodes] = indep_sin_lat(a.get('spacing', 'gauss'), g.latitude_nodes)
+    return out
 
 
 def _basis_tables(g):
@@ -166,8 +180,15 @@ GRIDS_QUICK = [dict(M=4, L=5, I=13, J=7, spacing='gauss', impl='real', offset=0.
                dict(M=3, L=4, I=10, J=6, spacing='equiangular', impl='real', offset=-0.5),
                dict(M=3, L=4, I=10, J=5, spacing='equiangular_with_poles', impl='fast', offset=0.1),
                # the stacked Fourier path (default only above 128 wavenumbers) must be exercised explicitly
-               dict(M=4, L=5, I=13, J=7, spacing='gauss', impl='fast', offset=0.0, fast_kw=dict(stacked_fourier_transforms=True))]
+               dict(M=4, L=5, I=13, J=7, spacing='gauss', impl='fast', offset=0.0, fast_kw=dict(stacked_fourier_transforms=True)),
+               # longitude_nodes = 2 (wavenumbers - 1): the top wavenumber sits on the Nyquist frequency; radius != 1
+               dict(M=4, L=5, I=6, J=7, spacing='gauss', impl='real', offset=0.0, radius=2.5)]
 GRIDS_THOROUGH = GRIDS_QUICK + [
+    dict(M=2, L=3, I=96, J=4, spacing='gauss', impl='real', offset=0.0),                 # wide
+    dict(M=2, L=3, I=4, J=48, spacing='equiangular', impl='fast', offset=0.0),           # tall
+    dict(M=3, L=7, I=10, J=9, spacing='gauss', impl='real', offset=0.0, radius=0.5),     # total_wavenumbers > M + 1
+    dict(M=4, L=5, I=13, J=7, spacing='gauss', impl='fast', offset=0.0, fast_kw=dict(base_shape_multiple=8)),
+    dict(M=4, L=5, I=6, J=6, spacing='equiangular', impl='fast', offset=0.3, fast_kw=dict(base_shape_multiple=4), radius=3.0),
     dict(M=4, L=5, I=12, J=6, spacing='gauss', impl='real', offset=0.0),
     dict(M=5, L=6, I=16, J=8, spacing='gauss', impl='fast', offset=1.0),
     dict(M=4, L=6, I=13, J=9, spacing='equiangular', impl='fast', offset=0.0),
@@ -189,6 +210,8 @@ def generate(ctx):
         yield 'actions', dict(g, seed=int(rng.integers(0, 2 ** 31)))
         yield 'sht', dict(g, seed=int(rng.integers(0, 2 ** 31)))
         yield 'ops', dict(g, seed=int(rng.integers(0, 2 ** 31)))
+    for g in (grids[:2] + grids[5:6]) if quick else grids[:8]:
+        yield 'radius', dict(g, seed=int(rng.integers(0, 2 ** 31)))
     for g in grids[:2] if quick else grids[:3]:
         yield 'diag', dict(g, seed=int(rng.integers(0, 2 ** 31)))
     def dyn_case(kind, impl='real', spacing='gauss', integrator=None, filters=(), nsteps=0, ks='all', **extra):
@@ -203,11 +226,35 @@ def generate(ctx):
         yield dyn_case('hs')
         yield dyn_case('dry', impl='fast', spacing='equiangular', integrator='backward_forward_euler', nsteps=1)
         # planets with 2*Omega != 1 in model units (twice / half the Earth's rotation rate)
-        yield dyn_case('dry', integrator='backward_forward_euler', nsteps=2, ks=2, omega_factor=2.0)
+        yield dyn_case('dry', integrator='backward_forward_euler', nsteps=2, ks=2, omega_factor=2.0, reassign=True)
         yield dyn_case('moist', ks=2, omega_factor=0.5)
-        yield dyn_case('sw', ks=2, omega_factor=2.0)
+        yield dyn_case('sw', ks=2, omega_factor=2.0, reassign=True)
         yield dyn_case('dry', impl='fast', fast_kw=dict(stacked_fourier_transforms=True))
+        # options, sizes, structured states (self-review checklist)
+        yield dyn_case('sw', ks=2, layers=3, radius=2.5, integrator='backward_forward_euler', nsteps=2, variants=['rest', 'single_top', 'zonal'])
+        yield dyn_case('sw', ks=2, layers=1)
+        yield dyn_case('moist', ks=2, amp='big', eq_kw=dict(vertical_advection='upwind'), eta=-0.03, reassign=True,
+                       variants=['zero_q', 'rest', 'single_top', 'sym'])
+        yield dyn_case('dry', ks=2, eq_kw=dict(include_vertical_advection=False, vertical_matmul_method='sparse'), K=2, radius=0.5)
+        yield dyn_case('dry', ks=2, impl='fast', fast_kw=dict(base_shape_multiple=4), integrator='crank_nicolson_rk2',
+                       filters=['exponential'], nsteps=2, scale='custom')
+        yield dyn_case('hs', ks=2, hs_params='alt', amp='big')
     else:
+        for layers in (1, 2, 3, 4):
+            yield dyn_case('sw', layers=layers, radius=[1.0, 2.5, 0.5, 1.0][layers - 1], integrator='imex_rk_sil3', filters=['exponential'],
+                           nsteps=2, variants=['rest', 'single_top', 'zonal', 'sym'])
+        for kind in ('dry', 'moist', 'cloud'):
+            yield dyn_case(kind, amp='big', eq_kw=dict(vertical_advection='upwind'), integrator='crank_nicolson_rk3', nsteps=2, eta=-0.03,
+                           variants=['zero_q', 'rest', 'single_top', 'zonal', 'sym'])
+            yield dyn_case(kind, eq_kw=dict(include_vertical_advection=False, vertical_matmul_method='sparse'), integrator='imex_rk_sil3',
+                           nsteps=2, radius=2.0)
+            yield dyn_case(kind, impl='fast', fast_kw=dict(base_shape_multiple=4), integrator='crank_nicolson_rk2', filters=['exponential'],
+                           nsteps=2, scale='custom', amp='big')
+            yield dyn_case(kind, eq_kw=dict(vertical_matmul_method='dense'), K=1, ks=3)
+            yield dyn_case(kind, K=2, ks=3, integrator='backward_forward_euler', nsteps=2)
+            yield dyn_case(kind, K=5, ks=3, M=3, L=7, I=10, J=9, integrator='backward_forward_euler', nsteps=1)
+        yield dyn_case('hs', hs_params='alt', amp='big')
+        yield dyn_case('hs', hs_params='alt', impl='fast', fast_kw=dict(base_shape_multiple=4), K=5)
         for kind in ('dry', 'time', 'moist', 'cloud', 'sw'):
             for integ in dyn.INTEGRATORS:
                 yield dyn_case(kind, integrator=integ, filters=['exponential', 'diffusion'], nsteps=3)
@@ -221,7 +268,7 @@ def generate(ctx):
         yield dyn_case('dry', integrator='crank_nicolson_rk2', nsteps=2, I=12, J=6)
         for kind in ('dry', 'moist', 'sw'):
             for of in (2.0, 0.5):
-                yield dyn_case(kind, integrator='imex_rk_sil3', filters=['exponential'], nsteps=2, omega_factor=of)
+                yield dyn_case(kind, integrator='imex_rk_sil3', filters=['exponential'], nsteps=2, omega_factor=of, reassign=True)
         yield dyn_case('dry', integrator='imex_rk_sil3', nsteps=2, M=5, L=6, I=16, J=8, impl='fast')
 
 
@@ -258,6 +305,9 @@ def r_tables(ctx, a):
     ctx.table_obligation('H_rot_unit (c0=1, s0=0, c^2+s^2=1) ' + tag,
                          c1[0] == 1.0 and s1[0] == 0.0 and float(np.abs(c1 ** 2 + s1 ** 2 - 1).max()) <= 1e-14,
                          {'c': c1.tolist(), 's': s1.tolist()})
+    # latitude nodes against the grid definition (independent of the implementation)
+    e0 = float(np.abs(np.asarray(g.nodal_axes[1], dtype=np.float64)[:J] - indep_sin_lat(a.get('spacing', 'gauss'), J)).max())
+    ctx.table_obligation('H_lat_nodes (sin(lat) nodes = definition of the spacing) ' + tag, e0 <= 1e-14, {'err': e0})
     # H_nodes_sym
     sin_lat = np.asarray(g.nodal_axes[1], dtype=np.float64)[:J]
     e1 = float(np.abs(w - w[::-1]).max()); e2 = float(np.abs(sin_lat + sin_lat[::-1]).max())
@@ -292,21 +342,21 @@ def r_tables(ctx, a):
     eq = dyn.pe_equation('dry', c, specs, [250.0, 250.0])
     cor = np.asarray(eq.coriolis_parameter, dtype=np.float64)
     om = float(specs.angular_velocity)
-    mo = ctx.model.call(5, [g.nodal_shape[0], g.nodal_shape[1]], [[om], np.asarray(g.nodal_axes[1], dtype=np.float64)])
+    mo = ctx.model.call(5, [g.nodal_shape[0], g.nodal_shape[1]], [[om], _sin_lat_padded(g, a)])
     ctx.corr('coriolis_parameter (primitive equations) vs model', cor, mo, scale=2 * abs(om))
     pe = dyn.mods()['pe']; scales = dyn.mods()['scales']
     for fac in (2.0, 0.5):
         specs2 = pe.PrimitiveEquationsSpecs.from_si(angular_velocity_si=fac * scales.ANGULAR_VELOCITY)
         eq2 = dyn.pe_equation('dry', c, specs2, [250.0, 250.0])
         om2 = float(specs2.angular_velocity)
-        mo3 = ctx.model.call(5, [g.nodal_shape[0], g.nodal_shape[1]], [[om2], np.asarray(g.nodal_axes[1], dtype=np.float64)])
+        mo3 = ctx.model.call(5, [g.nodal_shape[0], g.nodal_shape[1]], [[om2], _sin_lat_padded(g, a)])
         for n in (1, 2):
             ctx.corr(f'coriolis_parameter (primitive equations, {fac} x Earth rotation, read #{n} on the same coordinates) vs model',
                      np.asarray(eq2.coriolis_parameter, dtype=np.float64), mo3, scale=2 * abs(om2))
     swc = dyn.layer_coords(g, 1)
     sweq = dyn.sw_equation(swc, [1.0], [1.0], omega=0.75)
     cor2 = np.asarray(sweq.coriolis_parameter, dtype=np.float64)
-    mo2 = ctx.model.call(5, [g.nodal_shape[0], g.nodal_shape[1]], [[0.75], np.asarray(g.nodal_axes[1], dtype=np.float64)])
+    mo2 = ctx.model.call(5, [g.nodal_shape[0], g.nodal_shape[1]], [[0.75], _sin_lat_padded(g, a)])
     ctx.corr('coriolis_parameter (shallow water) vs model', cor2, mo2, scale=1.5)
     for nm, cc in (('primitive equations', cor), ('shallow water', cor2)):
         ctx.oracle_close(f'Coriolis field invariant under longitude shifts ({nm})', shift_np(g, cc, 1), cc, tol_rel=1e-14)
@@ -362,9 +412,11 @@ def _close(ctx, clause, lhs, rhs, floor=0.0):
     ok = len(la) == len(lb)
     if not ok:
         return ctx.oracle(clause, False, 'tree structures differ')
+    fl = [float(np.max(np.abs(np.asarray(t)))) if np.size(t) else 0.0 for t in dyn.tree_leaves(floor)] if not isinstance(floor, float) else None
     for n, (u, v) in enumerate(zip(la, lb)):
         u = np.asarray(u, dtype=np.float64); v = np.asarray(v, dtype=np.float64)
-        sc = max(float(np.max(np.abs(u))) if u.size else 0.0, float(np.max(np.abs(v))) if v.size else 0.0, floor, 1e-300)
+        sc = max(float(np.max(np.abs(u))) if u.size else 0.0, float(np.max(np.abs(v))) if v.size else 0.0,
+                 (fl[n] if fl is not None and n < len(fl) else (floor if isinstance(floor, float) else 0.0)), 1e-300)
         if not (np.all(np.isfinite(u)) and np.all(np.isfinite(v))):
             return ctx.oracle(clause, False, f'leaf {n}: non-finite values')
         if _DEBUG:
@@ -377,13 +429,17 @@ def _close(ctx, clause, lhs, rhs, floor=0.0):
 def r_sht(ctx, a):
     g = _grid(a); rng = np.random.Generator(np.random.PCG64(a['seed']))
     I, J = g.longitude_nodes, g.latitude_nodes
-    x = dyn.modal_field(rng, g, (2,), degree=g.total_wavenumbers - 1)
-    z = np.zeros((2,) + tuple(g.nodal_shape)); z[..., :I, :J] = util.small_rationals(rng, (2, I, J))
-    zx = np.asarray(g.to_nodal(x)); az = np.asarray(g.to_modal(z))
-    for T in _syms(g, rng):
-        _close(ctx, 'to_nodal is equivariant: to_nodal(T x) = T to_nodal(x)', np.asarray(g.to_nodal(T.modal(x))), T.nodal(zx))
-        _close(ctx, 'to_modal is equivariant: to_modal(T z) = T to_modal(z)', np.asarray(g.to_modal(T.nodal(z))), T.modal(az))
-        ctx.count('sym:' + ('mirror' if T.mirror else 'rot'))
+    for lead in ((2,), (), (2, 3)):           # field ranks 2..4, different content per slice
+        x = dyn.modal_field(rng, g, lead, degree=g.total_wavenumbers - 1)
+        z = np.zeros(lead + tuple(g.nodal_shape)); z[..., :I, :J] = util.small_rationals(rng, lead + (I, J))
+        zx = np.asarray(g.to_nodal(x)); az = np.asarray(g.to_modal(z))
+        for T in (_syms(g, rng) if lead == (2,) else _syms(g, rng, ks=1)):
+            _close(ctx, 'to_nodal is equivariant: to_nodal(T x) = T to_nodal(x)', np.asarray(g.to_nodal(T.modal(x))), T.nodal(zx))
+            _close(ctx, 'to_modal is equivariant: to_modal(T z) = T to_modal(z)', np.asarray(g.to_modal(T.nodal(z))), T.modal(az))
+            _close(ctx, 'integrate is invariant: integrate(T z) = integrate(z)', np.asarray(g.integrate(T.nodal(z))), np.asarray(g.integrate(z)),
+                   floor=float(np.abs(z).max()) * (g.radius ** 2))
+            ctx.count('sym:' + ('mirror' if T.mirror else 'rot'))
+        ctx.count('rank:%d' % (len(lead) + 2))
 
 
 def r_ops(ctx, a):
@@ -417,8 +473,14 @@ def r_ops(ctx, a):
         sgn = -1.0 if T.mirror else 1.0
         _close(ctx, 'k_cross commutes with rotations and flips sign under the mirror',
                [N(t) for t in g.k_cross(T.vec((x, y)))], [sgn * t for t in T.vec([N(t) for t in kv])])
-        # velocities from (pseudo-scalar vorticity, scalar divergence)
+        # jitted helpers with the grid as static argument
         sh = m['sh']
+        if a.get('spacing') != 'equiangular_with_poles':          # (division by cos(lat) = 0 at pole nodes)
+            uvn = sh.vor_div_to_uv_nodal(g, x, y)
+            _close(ctx, 'vor_div_to_uv_nodal(T vorticity, T divergence) = T (u even, v odd) on the nodes',
+                   [N(t) for t in sh.vor_div_to_uv_nodal(g, T.modal(x, pseudo=True), T.modal(y))],
+                   [T.nodal(N(uvn[0])), T.nodal(N(uvn[1]), odd=True)])
+        # velocities from (pseudo-scalar vorticity, scalar divergence)
         uv = sh.get_cos_lat_vector(x, y, g)
         _close(ctx, 'get_cos_lat_vector(T vorticity, T divergence) = T (u, v)',
                [N(t) for t in sh.get_cos_lat_vector(T.modal(x, pseudo=True), T.modal(y), g)], list(T.vec([N(t) for t in uv])))
@@ -427,43 +489,89 @@ def r_ops(ctx, a):
 # ---------------------------------------------------------------------------
 # oracles: tendencies and trajectories
 # ---------------------------------------------------------------------------
+AMP_BIG = dict(vort=0.3, div=0.1, T=10.0, lnps=0.3, tr=0.05)
+
+
+def _variant(st, g, which):
+    """structured (non-random) states derived from a random one"""
+    import dataclasses
+    jax = dyn.mods()['jax']
+    mm, ll = g.modal_mesh
+    fast, wav, iscos, partner = layout(g)
+    def per_field(name, x):
+        x = np.asarray(x, dtype=np.float64)
+        if x.ndim < 2: return x
+        if which == 'rest':                    # exactly at rest: no flow, no temperature / pressure perturbation
+            return x * 0.0 if name in ('vorticity', 'divergence', 'temperature_variation', 'potential') else \
+                (x * (ll == 0) if name == 'log_surface_pressure' else x)
+        if which == 'single_top':              # one coefficient, at the highest retained total wavenumber, highest m (cos row)
+            sel = np.zeros(x.shape[-2:]); row = int(np.where(iscos & (wav == wav[: (2 * g.longitude_wavenumbers if fast else None)].max()))[0][0])
+            sel[row, g.total_wavenumbers - 2] = 1.0
+            return x * 0.0 + 0.125 * sel * (0.0 if name in () else 1.0)
+        if which == 'zonal':                   # zonally symmetric
+            return x * (wav == 0)[:, None]
+        if which == 'zero_q':                  # identically zero humidity / tracers
+            return x * 0.0 if name == 'tracers' else x
+        if which == 'sym':                     # symmetric about the equator (vorticity antisymmetric)
+            return 0.5 * (x + mir_np(g, x, pseudo=(name == 'vorticity')))
+        raise ValueError(which)
+    kw = {}
+    for f in dataclasses.fields(st):
+        kw[f.name] = jax.tree_util.tree_map(lambda leaf, n=f.name: per_field(n, leaf), getattr(st, f.name))
+    return type(st)(**kw)
+
+
 def _dyn_setup(a, rng):
     """returns (grid, random orography, state maker, fn(oro, state) -> dict of results [jitted once],
     eager pieces: dict(mk_eq, specs, omega, explicit) built on the SAME coordinate system object)"""
-    m = dyn.mods(); jax = m['jax']; jnp = m['jnp']; ti = m['ti']; pe = m['pe']; sw = m['sw']
+    m = dyn.mods(); jax = m['jax']; jnp = m['jnp']; ti = m['ti']; pe = m['pe']; sw = m['sw']; sc = m['sc']; scales = m['scales']
     g = _grid(a); kind = a['kind']
     deg = g.total_wavenumbers - 2
     oro = dyn.modal_field(rng, g, (), deg, amp=0.05 if kind == 'sw' else 0.01)
-    K = 3
+    K = int(a.get('K', 3))
     dt = 0.05 if kind == 'sw' else 0.02
+    eta = float(a.get('eta', 0.03))
     lf = a.get('integrator') == 'semi_implicit_leapfrog'
     of = float(a.get('omega_factor', 1.0))     # rotation rate in units of the Earth's
+    amp = AMP_BIG if a.get('amp') == 'big' else None
     if kind == 'sw':
-        c = dyn.layer_coords(g, 2)
-        specs = sw.ShallowWaterSpecs(np.asarray([1.0, 1.25]), 1.0, 1.0 * of, 1.0, m['scales'].DEFAULT_SCALE)
-        mk_eq = lambda o: sw.ShallowWaterEquations(c, specs, o, np.asarray([1.0, 0.5]))
+        layers = int(a.get('layers', 2))
+        c = dyn.layer_coords(g, layers)
+        dens = 1.0 + 0.25 * np.arange(layers)
+        refp = np.asarray([1.0, 0.5, 0.75, 0.625][:layers])
+        specs = sw.ShallowWaterSpecs(dens, float(a.get('radius') or 1.0), 1.0 * of, 1.0, scales.DEFAULT_SCALE)
+        mk_eq = lambda o: sw.ShallowWaterEquations(c, specs, o, refp)
         mk_state = lambda: dyn.sw_state(rng, c, deg)
     else:
         c = dyn.coords(g, util.uneven_boundaries(rng, K))
-        specs = pe.PrimitiveEquationsSpecs.from_si(angular_velocity_si=of * m['scales'].ANGULAR_VELOCITY)
+        u = scales.units
+        scale = scales.Scale(2.0e6 * u.m, 3.0e4 * u.s, 2.0 * u.kg, 1.0 * u.degK) if a.get('scale') == 'custom' else scales.DEFAULT_SCALE
+        specs = pe.PrimitiveEquationsSpecs.from_si(angular_velocity_si=of * scales.ANGULAR_VELOCITY, scale=scale)
         tref = 250.0 + rng.integers(-20, 21, size=K).astype(np.float64)
         k2 = 'dry' if kind == 'hs' else kind
         cls = getattr(pe, dyn.PE_CLASSES[k2])
-        mk_eq = lambda o: cls(tref, o, c, specs)
+        ekw = dict(a.get('eq_kw', {}))
+        if ekw.get('vertical_advection') == 'upwind':
+            ekw['vertical_advection'] = sc.upwind_vertical_advection
+        mk_eq = lambda o: cls(tref, o, c, specs, **ekw)
         lnps0 = 0.0
         if kind == 'hs':
-            lnps0 = float(np.log(specs.nondimensionalize(1e5 * m['scales'].units.pascal))) * 3.5449077
-        mk_state = lambda: dyn.pe_state(rng, c, deg, dyn.PE_TRACERS[k2], with_time=(k2 != 'dry'), lnps0=lnps0)
+            lnps0 = float(np.log(specs.nondimensionalize(1e5 * u.pascal))) * 3.5449077
+        mk_state = lambda: dyn.pe_state(rng, c, deg, dyn.PE_TRACERS[k2], with_time=(k2 != 'dry'), lnps0=lnps0, amp=amp)
     if kind == 'hs':
         from dinosaur import held_suarez
-        hs = held_suarez.HeldSuarezForcing(c, specs, tref)
-        def fn(o, st, eta=0.03):
+        hkw = {}
+        if a.get('hs_params') == 'alt':
+            hkw = dict(p0=0.9e5 * u.pascal, sigma_b=0.5, kf=1 / (0.5 * u.day), ka=1 / (20 * u.day), ks=1 / (2 * u.day),
+                       minT=240 * u.degK, maxT=300 * u.degK, dTy=40 * u.degK, dThz=20 * u.degK)
+        hs = held_suarez.HeldSuarezForcing(c, specs, tref, **hkw)
+        def fn(o, st):
             return {'held_suarez.explicit_terms': hs.explicit_terms(st)}
         eager = dict(mk_eq=None, explicit=lambda o, st: hs.explicit_terms(st), name='held_suarez.explicit_terms', omega=None)
     else:
         eager = dict(mk_eq=mk_eq, explicit=lambda o, st: mk_eq(o).explicit_terms(st), name='explicit_terms',
                      omega=float(specs.angular_velocity))
-        def fn(o, st, eta=0.03):
+        def fn(o, st):
             eq = mk_eq(o)
             out = {'explicit_terms': eq.explicit_terms(st), 'implicit_terms': eq.implicit_terms(st),
                    'implicit_inverse': eq.implicit_inverse(st, eta)}
@@ -472,14 +580,14 @@ def _dyn_setup(a, rng):
                 if lf:
                     lfilt = [ti.exponential_leapfrog_step_filter(g, dt, tau=10 * dt, order=3)] if 'exponential' in a.get('filters', []) else []
                     step = ti.step_with_filters(ti.semi_implicit_leapfrog(eq, dt, alpha=0.5), lfilt)
-                    u = (st, jax.tree_util.tree_map(lambda q: q * 1.0625, st))
-                    for _ in range(a['nsteps']): u = step(u)
-                    out[f"{a['nsteps']} steps of semi_implicit_leapfrog with filters {a.get('filters', [])}"] = u[1]
+                    u2 = (st, jax.tree_util.tree_map(lambda q: q * 1.0625, st))
+                    for _ in range(a['nsteps']): u2 = step(u2)
+                    out[f"{a['nsteps']} steps of semi_implicit_leapfrog with filters {a.get('filters', [])}"] = u2[1]
                 else:
                     step = ti.step_with_filters(dyn.integrator(a['integrator'], eq, dt), filt)
-                    u = st
-                    for _ in range(a['nsteps']): u = step(u)
-                    out[f"{a['nsteps']} steps of {a['integrator']} with filters {a.get('filters', [])}"] = u
+                    u2 = st
+                    for _ in range(a['nsteps']): u2 = step(u2)
+                    out[f"{a['nsteps']} steps of {a['integrator']} with filters {a.get('filters', [])}"] = u2
             return out
     return g, oro, mk_state, jax.jit(fn), eager
 
@@ -489,11 +597,11 @@ def _to_jnp(tree):
     return m['jax'].tree_util.tree_map(lambda q: m['jnp'].asarray(q, dtype=np.float64), tree)
 
 
-def _coriolis_unchanged(ctx, g, eq, omega, when):
+def _coriolis_unchanged(ctx, a, g, eq, omega, when):
     """coriolis_parameter read on the live equation object = model 2*Omega*sin(lat) at the grid nodes, and the grid's
     cached nodal mesh is still the mesh of its nodal axes"""
     sin_lat = np.asarray(g.nodal_axes[1], dtype=np.float64)
-    mo = ctx.model.call(5, [g.nodal_shape[0], g.nodal_shape[1]], [[omega], sin_lat])
+    mo = ctx.model.call(5, [g.nodal_shape[0], g.nodal_shape[1]], [[omega], _sin_lat_padded(g, a)])
     ctx.corr(f'coriolis_parameter vs model 2*Omega*sin(lat) ({when} the dynamics calls)',
              np.asarray(eq.coriolis_parameter, dtype=np.float64), mo, scale=2 * abs(omega))
     lon, sl = g.nodal_mesh
@@ -513,7 +621,7 @@ def r_dynamics(ctx, a):
     st = mk_state()
     eq0 = eager['mk_eq'](_to_jnp(oro)) if eager['mk_eq'] else None
     if eq0 is not None:
-        _coriolis_unchanged(ctx, g, eq0, eager['omega'], 'before')
+        _coriolis_unchanged(ctx, a, g, eq0, eager['omega'], 'before')
     base = dyn.tree_to_np(fn(_to_jnp(oro), _to_jnp(st)))
     ctx.oracle('results finite', dyn.tree_all_finite(base))
     syms = _syms(g, rng, ks=a.get('ks', 'all'))
@@ -537,8 +645,33 @@ def r_dynamics(ctx, a):
     _close(ctx, f"{a['kind']}: {nm} commutes with T when evaluated eagerly on the same objects (order F(x), F(T x), F(x))",
            e2, T.state(e1))
     _close(ctx, f"{a['kind']}: compiled and eager evaluation of {nm} agree", base[nm], e1)
+    if eq0 is not None and a.get('reassign'):
+        # one equation object reused after re-assigning its orography attribute (and back)
+        eqr = eager['mk_eq'](_to_jnp(oro))
+        r1 = dyn.tree_to_np(eqr.explicit_terms(_to_jnp(st)))
+        eqr.orography = _to_jnp(T.modal(oro))
+        r2 = dyn.tree_to_np(eqr.explicit_terms(_to_jnp(T.state(st))))
+        eqr.orography = _to_jnp(oro)
+        r3 = dyn.tree_to_np(eqr.explicit_terms(_to_jnp(st)))
+        ctx.oracle(f"{a['kind']}: evaluations are pure: an equation object whose orography attribute is re-assigned "
+                   f"(x, T x, x) gives bit-identical results to fresh objects",
+                   _bit_identical(r1, e1) and _bit_identical(r2, e2) and _bit_identical(r3, e1))
+    # structured states through the same compiled function
+    for which in a.get('variants', []):
+        if which == 'zero_q' and a['kind'] not in ('moist', 'cloud'): continue
+        sv = _variant(st, g, which)
+        bv = dyn.tree_to_np(fn(_to_jnp(oro), _to_jnp(sv)))
+        ctx.oracle(f'results finite (structured state: {which})', dyn.tree_all_finite(bv))
+        for Tv in (syms[0], syms[1], syms[-2], syms[-1]):
+            rv = dyn.tree_to_np(fn(_to_jnp(Tv.modal(oro)), _to_jnp(Tv.state(sv))))
+            for name in bv:
+                # scale: that of the same field for the random state (a state at rest produces rounding-level noise only)
+                _close(ctx, f"{a['kind']}: {name.split(' with filters')[0] if 'steps of' in name else name} commutes with T "
+                            f"({'mirror' if Tv.mirror else 'rotation by grid steps'}; orography transformed too)", rv[name], Tv.state(bv[name]),
+                       floor=base[name])
+        ctx.count('variant:' + which)
     if eq0 is not None:
-        _coriolis_unchanged(ctx, g, eq0, eager['omega'], 'after')
+        _coriolis_unchanged(ctx, a, g, eq0, eager['omega'], 'after')
     if _DEBUG:
         for k2, v2 in sorted(_WORST.items()): print('   worst rel err %.2e  %s' % (v2, k2))
 
@@ -567,4 +700,33 @@ def r_diag(ctx, a):
         ctx.count('sym:' + ('mirror' if T.mirror else 'rot'))
 
 
-RUNNERS = {'diag': r_diag, 'tables': r_tables, 'actions': r_actions, 'sht': r_sht, 'ops': r_ops, 'dynamics': r_dynamics}
+def r_radius(ctx, a):
+    """two grids that differ in ONE field (radius), used in the same process in the order g1, g2, g1 through the jitted
+    helpers whose static argument is the grid: the results must not be confused, and scale with the radius"""
+    rng = np.random.Generator(np.random.PCG64(a['seed'])); m = dyn.mods(); sh = m['sh']
+    if a.get('spacing') == 'equiangular_with_poles': return          # (division by cos(lat) = 0 at pole nodes)
+    g1 = _grid(a); r1 = float(g1.radius); g2 = _grid(dict(a, radius=2.0 * r1))
+    x = dyn.modal_field(rng, g1, (2,), degree=g1.total_wavenumbers - 2); y = dyn.modal_field(rng, g1, (2,), degree=g1.total_wavenumbers - 2)
+    N = lambda t: np.asarray(t, dtype=np.float64)
+    u1 = [N(t) for t in sh.vor_div_to_uv_nodal(g1, x, y)]
+    u2 = [N(t) for t in sh.vor_div_to_uv_nodal(g2, x, y)]
+    u3 = [N(t) for t in sh.vor_div_to_uv_nodal(g1, x, y)]
+    ctx.oracle('evaluations are pure: vor_div_to_uv_nodal on grid g1 is bit-identical before and after a call on a grid of another radius',
+               _bit_identical(u1, u3))
+    _close(ctx, 'vor_div_to_uv_nodal scales with the radius (radius doubled: velocities doubled)', u2, [2.0 * t for t in u1])
+    z1 = [N(t) for t in sh.uv_nodal_to_vor_div_modal(g1, u1[0], u1[1])]
+    z2 = [N(t) for t in sh.uv_nodal_to_vor_div_modal(g2, u1[0], u1[1])]
+    z3 = [N(t) for t in sh.uv_nodal_to_vor_div_modal(g1, u1[0], u1[1])]
+    ctx.oracle('evaluations are pure: uv_nodal_to_vor_div_modal on grid g1 is bit-identical before and after a call on a grid of another radius',
+               _bit_identical(z1, z3))
+    _close(ctx, 'uv_nodal_to_vor_div_modal scales with 1/radius', z2, [0.5 * t for t in z1])
+    for nm in ('laplacian', 'inverse_laplacian'):
+        fac = 0.25 if nm == 'laplacian' else 4.0
+        _close(ctx, f'{nm} scales with radius^-2 / radius^2', N(getattr(g2, nm)(x)), fac * N(getattr(g1, nm)(x)))
+    T = Sym(g1, int(rng.integers(1, g1.longitude_nodes)), True)
+    _close(ctx, 'uv_nodal_to_vor_div_modal(T u, T v) = (T vorticity as pseudo-scalar, T divergence)',
+           [N(t) for t in sh.uv_nodal_to_vor_div_modal(g1, T.nodal(u1[0]), T.nodal(u1[1], odd=True))],
+           [T.modal(z1[0], pseudo=True), T.modal(z1[1])])
+
+
+RUNNERS = {'radius': r_radius, 'diag': r_diag, 'tables': r_tables, 'actions': r_actions, 'sht': r_sht, 'ops': r_ops, 'dynamics': r_dynamics}
